@@ -248,13 +248,38 @@ def gen_ropts(rng, pf):
         ro["index"] = rng.sample(stored, 2)
         if ro["categories"] is not None and not ro.get("invalid_categories"):
             ro["categories"] = None
-    if rng.random() < 0.1 and cols and ro["columns"] is None and not ro["categories"]:
+    # every read option also on an EMPTY selection (a handle that selects no row group); datasets without row groups come from n = 0
+    if rng.random() < 0.15:
+        ro["empty"] = "slice"
+    p_over = 0.5 if (ro.get("empty") or not pf.row_groups) else (0.35 if stored else 0.12)
+    if rng.random() < p_over and cols and ro["columns"] is None and not ro["categories"]:
         c = rng.choice(cols)
         t = D.dt_of(pf.dtypes[c])
         new = {("int", True, 32): "int64", ("int", True, 8): "int32", ("float", 32): "float64", ("int", False, 8): "uint16",
                ("int", True, 64): "float64", ("bool",): "int8"}.get(t)
-        if new:
-            ro["dtypes"] = {c: new}
+        ro["dtypes"] = {c: new} if new else {}
+        # the mapping handed to to_pandas(dtypes=...) describes the other columns as predicted ('pred': categoricals as
+        # 'category') or by their VALUE types ('values': what _dtypes(categories=[]) says; columns read as categories, index
+        # columns included, must still come back categorical)
+        ro["dtypes_base"] = rng.choice(["pred", "values", "values"])
+        # ... crossed with the index choice: a stored categorical as index (None = the stored index, possibly categorical; a name; False)
+        if stored and ro["categories"] is None and rng.random() < 0.6:
+            ro["index"] = rng.choice([rng.choice(stored), rng.choice(stored), False, None])
+    return ro
+
+
+def gen_override_ropts(rng, pf):
+    """the to_pandas(dtypes=...) override crossed with categorical columns / a categorical index: the mapping describes every
+    column by its VALUE type (or as predicted), the index is a stored categorical / the stored index / suppressed"""
+    stored = list(pf.categories) if pf.has_pandas_metadata else []
+    ro = {"columns": None, "categories": None, "index": None, "dtypes": {}, "invalid_categories": False,
+          "dtypes_base": rng.choice(["values", "values", "pred"])}
+    if stored:
+        ro["index"] = rng.choice([rng.choice(stored), rng.choice(stored), None, False])
+    else:
+        ro["index"] = rng.choice([None, False] + list(pf.columns)[:1])
+    if rng.random() < 0.25:
+        ro["empty"] = "slice"
     return ro
 
 
@@ -302,14 +327,17 @@ def examine(case, path, pq=None, ctx=None):
     fails = []
     base = {"source": case["source"], "file": case.get("rel"), "pandas_nulls": pn, "categories": type(ro["categories"]).__name__, "strip": (case.get("strip") or {}).get("mode"),
             "index_opt": "none" if ro["index"] is None else ("false" if ro["index"] is False else ("list" if isinstance(ro["index"], list) else "name")),
-            "dtypes_override": bool(ro["dtypes"]), "columns_opt": ro["columns"] is not None}
+            "dtypes_override": bool(ro["dtypes"] or ro.get("dtypes_base")), "columns_opt": ro["columns"] is not None}
 
     def fail(component, what, detail, **kw):
         fails.append(({**base, "component": component, "what": what, **kw}, detail))
     try:
         pf = ParquetFile(path, pandas_nulls=pn)
+        if ro.get("empty") == "slice":
+            pf = pf[:0]               # a handle that selects no row group: every answer and every option again
     except Exception as e:        # noqa  (an unreadable foreign file is C03's concern)
         return "unopenable", [("%s: %s" % (type(e).__name__, str(e)[:100]))]
+    base["empty_selection"] = bool(ro.get("empty")) or not pf.row_groups
     cats_arg = ro["categories"]
     # ---------------- metadata-only answers, taken before any data is read ----------------
     pred, pred_err = None, None
@@ -330,16 +358,29 @@ def examine(case, path, pq=None, ctx=None):
         final_cats, cc_err = None, type(e).__name__
     tzs = dict(pf.tz or {})
     # ---------------- the read ----------------
-    want = list(ro["columns"]) if ro["columns"] is not None else cols + list(pcats)
+    req_cols = ro["columns"]
+    if ro.get("empty") and req_cols is not None:
+        # (the options were drawn from the full handle: a selection without row groups of a partitioned dataset has no
+        #  partition columns - C06's open finding - so they cannot be requested from it)
+        req_cols = [c for c in req_cols if c in cols or c in pcats]
+    want = list(req_cols) if req_cols is not None else cols + list(pcats)
     kw = {"categories": cats_arg, "index": ro["index"]}
-    if ro["columns"] is not None:
-        kw["columns"] = list(ro["columns"])
+    if req_cols is not None:
+        kw["columns"] = list(req_cols)
     override = {}
-    if ro["dtypes"] and pred is not None:
-        override = dict(ro["dtypes"])
-        dts = {c: pred[c] for c in want + [i for i in (idx or []) if i not in want] if c in pred}
-        dts.update(override)
+    if (ro["dtypes"] or ro.get("dtypes_base")) and pred is not None:
+        basep = pred
+        if ro.get("dtypes_base") == "values":
+            try:
+                basep = dict(ParquetFile(path, pandas_nulls=pn)._dtypes([]))
+            except Exception:        # noqa
+                basep = pred
+        dts = {c: basep[c] for c in want + [i for i in (idx or []) if i not in want] if c in basep}
+        dts.update(dict(ro["dtypes"] or {}))
         kw["dtypes"] = dts
+        # what the caller's mapping promises: its dtype for every column, except that a column read as a category (the
+        # categories request / a partition column) is categorical whatever the mapping says (api._pre_allocate)
+        override = {c: v for c, v in dts.items() if not ((final_cats is not None and c in final_cats) or c in pcats)}
     df, read_err = None, None
     try:
         df = pf.to_pandas(**kw)
@@ -370,7 +411,7 @@ def examine(case, path, pq=None, ctx=None):
             ctx.count("skipped", "column multi-index")
     elif list(df.columns) != exp_cols:
         fail("columns", "names-or-order", "handle: columns %s + partitions %s, index %s, requested %s => expected %s; frame has %s" % (
-            cols, list(pcats), idx, ro["columns"], exp_cols, list(df.columns)))
+            cols, list(pcats), idx, req_cols, exp_cols, list(df.columns)))
     if idx:
         if list(df.index.names) != names_of_index(idx):
             fail("index", "names", "_get_index -> %s, frame index names %s" % (idx, list(df.index.names)))
@@ -400,7 +441,7 @@ def examine(case, path, pq=None, ctx=None):
         ctx.count("skipped", "multi-index level dtypes")
     # ---------------- categoricals and partition columns ----------------
     if final_cats is not None and not multi_cols:
-        exp_cat = {c for c in df.columns if (c in final_cats or c in pcats) and c not in override}
+        exp_cat = {c for c in df.columns if (c in final_cats or c in pcats)}
         act_cat = {c for c in df.columns if isinstance(df[c].dtype, pd.CategoricalDtype)}
         if exp_cat != act_cat:
             fail("categories", "set", "categorical per the handle: %s; categorical in the frame: %s" % (sorted(exp_cat), sorted(act_cat)))
@@ -416,7 +457,7 @@ def examine(case, path, pq=None, ctx=None):
         fail("counts", "row_groups", "info %r, len(row_groups) %d, len(pf) %d" % (info["row_groups"], len(pf.row_groups), len(pf)))
     if info["columns"] != cols or info["partitions"] != list(pcats):
         fail("columns", "info", "info %r vs columns %r cats %r" % (info, cols, list(pcats)))
-    if len(rg_rows) <= 4 and len(df.columns) > 0 and not ro["dtypes"]:
+    if len(rg_rows) <= 4 and len(df.columns) > 0 and "dtypes" not in kw:
         try:
             lens = [len(d) for d in pf.iter_row_groups(**kw)]
             if lens != [r for r in rg_rows if r > 0]:
@@ -424,7 +465,9 @@ def examine(case, path, pq=None, ctx=None):
         except Exception as e:        # noqa
             fail("counts", "per-row-group", "iter_row_groups raises %s: %s" % (type(e).__name__, str(e)[:120]))
     # ---------------- ties ----------------
-    if pq is None:
+    if pq is None or ro.get("empty"):
+        # (a selection inherits the dtypes its parent derived from ALL its row groups - C17_handle_derived_inherits - the
+        #  `predict` model is evaluated on the handle's own row groups: no model ties on derived handles)
         return "ok", fails
     has_md = bool(pf.has_pandas_metadata)
     md = {c["name"]: c for c in pf.pandas_metadata["columns"]} if has_md else {}
@@ -485,7 +528,7 @@ def examine(case, path, pq=None, ctx=None):
     ia = [] if ro["index"] is None else ([0] if ro["index"] is False else [[x.encode() for x in ([ro["index"]] if isinstance(ro["index"], str) else ro["index"])]])
     mi = [x.decode() for x in pq.call("get_index", stored_ix, ia)]
     ctx.correspondence("get_index ~ ParquetFile._get_index", {**ccase, "stored": repr(stored_ix)}, mi, list(idx or []))
-    if not multi_cols and not ro["dtypes"]:
+    if not multi_cols and "dtypes" not in kw:
         mfc = pq.call("frame_columns", [c.encode() for c in cols], [c.encode() for c in pcats],
                       None if ro["columns"] is None else [[c.encode() for c in ro["columns"]]], [c.encode() for c in (idx or [])])
         ctx.correspondence("frame_columns ~ columns of the frame to_pandas returns", ccase, [x.decode() for x in mfc], [str(c) for c in df.columns])
@@ -686,6 +729,11 @@ def run(ctx):
     except Exception as e:        # noqa  fail closed: hand-written `pinned` + correspondence only
         ctx.extra["translator"] = "translator_fallback: %s: %s" % (type(e).__name__, str(e)[:300])
         ctx.notes.append(ctx.extra["translator"])
+    # ---- handle coherence: inventory of memoised attributes regenerated from api.py/writer.py, inventory_ok re-proved on it
+    #      (genproofs/GenHandleProofs.v), programs over live handles against fresh handles on the real code
+    from harness import handleprog as HP
+    HP.stream(ctx, nds=20 if ctx.quick() else 150, nprog=4 if ctx.quick() else 8, register_obligations=True)
+    multicat_stream(ctx, 40 if ctx.quick() else 400)
     rng = ctx.rng
     ctx.rule = ("datasets: (a) frames of C01 (harness/frames.py: every dtype kind x null patterns, sizes 0..257, optional index incl. "
                 "nullable/tz/categorical index kinds) written by the real writer under the option tuples of harness/rt.py (row-group offsets, "
@@ -706,7 +754,7 @@ def run(ctx):
     ctx.extra["foreign_files"] = len(foreign)
     sources = []
     cdir = os.path.join(C.VERIF, "corpus", "C17")
-    corpus = [json.load(open(os.path.join(cdir, f))) for f in sorted(os.listdir(cdir)) if f.endswith(".json")] if os.path.isdir(cdir) else []
+    corpus = [json.load(open(os.path.join(cdir, f))) for f in sorted(os.listdir(cdir)) if f.endswith(".json") and not f.startswith("hp_")] if os.path.isdir(cdir) else []
     ctx.extra["corpus_cases"] = len(corpus)
     for rel in foreign:
         sources.append({"source": "foreign", "rel": rel})
@@ -756,7 +804,8 @@ def run(ctx):
             rc.count("opt.categories", "invalid" if case["ropts"].get("invalid_categories") else type(case["ropts"]["categories"]).__name__)
             rc.count("opt.index", "None" if case["ropts"]["index"] is None else type(case["ropts"]["index"]).__name__)
             rc.count("opt.columns", "subset" if case["ropts"]["columns"] is not None else "all")
-            rc.count("opt.dtypes", bool(case["ropts"]["dtypes"]))
+            rc.count("opt.dtypes", "%s/%s" % (bool(case["ropts"]["dtypes"]), case["ropts"].get("dtypes_base")))
+            rc.count("opt.empty_selection", case["ropts"].get("empty"))
             rc.count("opt.strip", (case.get("strip") or {}).get("mode"))
             rc.count("pandas metadata", "removed on disk" if case.get("nomd") else ("foreign" if case["source"] == "foreign" else ("none (spliced)" if case["source"] == "spliced" else "as written")))
             rc.count("status", st)
@@ -800,6 +849,8 @@ def run(ctx):
             for k in range(per if src["source"] != "foreign" else nfor):
                 ro = gen_ropts(lrng, pf0) if k else {"columns": None, "categories": None, "index": None, "dtypes": None, "invalid_categories": False}
                 tuples.append((ro, (lrng.random() < 0.5) if k else True))
+            if src["source"] != "foreign" and (pf0.has_pandas_metadata and pf0.categories or lrng.random() < 0.3):
+                tuples.append((gen_override_ropts(lrng, pf0), lrng.random() < 0.7))
             tuples.append(({"sequence": gen_sequence(lrng, pf0, tuples)}, lrng.random() < 0.7))
         for ro, pn in tuples:
             case = dict(src)
@@ -827,6 +878,8 @@ def run(ctx):
             for k in range(per if job["src"]["source"] != "foreign" else nfor):
                 ro = gen_ropts(lrng, pf0) if k else {"columns": None, "categories": None, "index": None, "dtypes": None, "invalid_categories": False}
                 tuples.append((ro, (lrng.random() < 0.5) if k else True))
+            if job["src"]["source"] != "foreign" and (pf0.has_pandas_metadata and pf0.categories or lrng.random() < 0.3):
+                tuples.append((gen_override_ropts(lrng, pf0), lrng.random() < 0.7))
             tuples.append(({"sequence": gen_sequence(lrng, pf0, tuples)}, lrng.random() < 0.7))
         except Exception:       # noqa
             return [job]
@@ -858,6 +911,111 @@ def run(ctx):
         ctx.obligation("generator health: fewer than 25% of the generated frames fail to write", False, "%d of %d" % (werr, len(sources)))
 
 
+# ---------------------------------------------------------------------------------------------
+# multi-file datasets whose files record DIFFERENT numbers of categories (the category list grows from file to file),
+# opened through the consolidating paths (directory without _metadata, explicit list of files): the number of categories
+# the handle reports from metadata alone against the categorical column a full read produces, on a count lattice that
+# crosses the decimal and the code-width boundaries (9/10, 99/100, 127/128, 255/256)
+
+CAT_LATTICE = [1, 2, 8, 9, 10, 11, 12, 20, 95, 99, 100, 101, 105, 126, 127, 128, 129, 130, 200, 255, 256, 257, 300]
+
+
+def gen_multicat(rng):
+    k = rng.choice([2, 2, 3, 3, 4])
+    # neighbours across a boundary are the interesting tuples: pick a window of the lattice, then k counts in it
+    i = rng.randrange(len(CAT_LATTICE))
+    window = CAT_LATTICE[max(0, i - 4):i + 5]
+    sizes = sorted(rng.choice(window) for _ in range(k))
+    if rng.random() < 0.3:
+        sizes = sorted(rng.sample(CAT_LATTICE, k))
+    return {"source": "multicat", "sizes": sizes, "open": rng.choice(["dir", "dir", "list"]), "extra_rows": rng.choice([0, 3, 40]),
+            "cats_arg": rng.choice(["None", "list", "dict"]), "pn": rng.random() < 0.7, "seed": rng.randrange(1 << 30)}
+
+
+def examine_multicat(case, root):
+    """-> list of (cls, detail)"""
+    import numpy as np
+    import pandas as pd
+    from fastparquet import ParquetFile, write
+    dn = os.path.join(root, "multicat")
+    shutil.rmtree(dn, ignore_errors=True)
+    os.makedirs(dn)
+    labels = ["L%03d" % i for i in range(400)]
+    frames, files = [], []
+    for i, n in enumerate(case["sizes"]):
+        rows = n + case["extra_rows"]
+        r = np.random.default_rng(case["seed"] + i)
+        codes = r.integers(0, n, rows)
+        codes[:n] = np.arange(n)
+        df = pd.DataFrame({"c": pd.Categorical.from_codes(codes, labels[:n]), "x": np.arange(rows, dtype="int64") + 1000 * i})
+        fn = os.path.join(dn, "part.%i.parquet" % i)
+        write(fn, df)
+        frames.append(df)
+        files.append(fn)
+    written = pd.concat([f_.c.astype(object) for f_ in frames], ignore_index=True)
+    base = {"source": "multicat", "component": "categories", "open": case["open"], "categories": case["cats_arg"], "pandas_nulls": case["pn"]}
+    fails = []
+
+    def opn():
+        return ParquetFile(files if case["open"] == "list" else dn, pandas_nulls=case["pn"])
+    pf = opn()
+    reported = dict(pf.categories)
+    rdt = str(pf.dtypes["c"])
+    rows = pf.count()
+    cats = {"None": None, "list": ["c"], "dict": dict(reported)}[case["cats_arg"]]
+    try:
+        out = opn().to_pandas(categories=cats)
+    except Exception as e:        # noqa
+        return [({**base, "what": "read-raises"}, "handle reports categories %r, count %d; to_pandas(categories=%r) raises %s: %s" % (
+            reported, rows, cats, type(e).__name__, str(e)[:160]))]
+    if len(out) != rows:
+        fails.append(({**base, "what": "rows"}, "count() %d, read %d rows" % (rows, len(out))))
+    if str(out.c.dtype) != rdt:
+        fails.append(({**base, "what": "dtype"}, "handle reports dtype %s for 'c', the read gives %s" % (rdt, out.c.dtype)))
+        return fails
+    got = len(out.c.cat.categories)
+    if reported.get("c") != got:
+        fails.append(({**base, "what": "num_categories"}, "files with %s categories: the handle reports %r categories for 'c' (metadata only), the column read has %d" % (
+            case["sizes"], reported.get("c"), got)))
+    if not (out.c.astype(object).values == written.values).all():
+        fails.append(({**base, "what": "values"}, "files with %s categories, categories=%r: values read differ from the values written" % (case["sizes"], cats)))
+    return fails
+
+
+def multicat_job(case):
+    import tempfile
+    import warnings
+    warnings.filterwarnings("ignore")
+    tmp = tempfile.mkdtemp(prefix="verif-C17-mc-", dir="/tmp")
+    try:
+        return examine_multicat(case, tmp)
+    finally:
+        shutil.rmtree(tmp, ignore_errors=True)
+
+
+def multicat_stream(ctx, n):
+    cases = [gen_multicat(ctx.rng) for _ in range(n)]
+    # the boundary tuples themselves, deterministically
+    for sizes in ([9, 10, 12], [8, 9, 12], [95, 100, 105], [99, 100], [127, 128], [126, 129, 130], [255, 256], [200, 257, 300]):
+        cases.append({"source": "multicat", "sizes": sizes, "open": "dir", "extra_rows": 3, "cats_arg": "None", "pn": True, "seed": 7})
+    res = C.pmap(multicat_job, cases, init=_winit2, nproc=min(8, os.cpu_count() or 4), job_timeout=300)
+    for case, r in zip(cases, res):
+        ctx.case(case, False)
+        ctx.count("source", "multicat")
+        ctx.count("multicat.sizes", "%d files, max %d categories" % (len(case["sizes"]), max(case["sizes"])))
+        if isinstance(r, dict) and "__crashed__" in r:
+            ctx.fail({"component": "native-crash", "what": "crash", "source": "multicat", "file": None, "invalid_categories": False}, case, r["__crashed__"])
+            continue
+        for cls, det in r:
+            ctx.fail(cls, case, det)
+
+
+def _winit2():
+    import warnings
+    warnings.filterwarnings("ignore")
+    C.use_shadow()
+
+
 _W = {"pq": None}
 
 
@@ -875,6 +1033,17 @@ def replay(rep):
         return 1
     C.use_shadow()
     case = rep["case"]
+    if "handle_program" in case:
+        from harness import handleprog as HP
+        return HP.replay_case(case["handle_program"])
+    if case.get("source") == "multicat":
+        fails = multicat_job(case)
+        print("multi-file dataset, files with %s categories in column 'c', opened as %s, categories=%s" % (case["sizes"], case["open"], case["cats_arg"]))
+        for cls, det in fails:
+            print("PROPERTY FAILS [%s/%s]: %s" % (cls["component"], cls["what"], det))
+        if not fails:
+            print("property holds on this input now")
+        return 1 if fails else 0
     tmp = tempfile.mkdtemp(prefix="verif-C17-replay-", dir="/tmp")
 
     def job(case):
